@@ -134,9 +134,13 @@ func vxDrawType(t *rapid.T, depth int, key bool) *cqlspec.Type {
 	default:
 		n := rapid.IntRange(1, 4).Draw(t, "udtn")
 		tt := &cqlspec.Type{Kind: cqlspec.UDT, Keyspace: "ks", Name: "u" + strconv.Itoa(n)}
+		first := 'a'
+		if rapid.IntRange(0, 3).Draw(t, "udtcaps") == 0 {
+			first = 'A' // quoted, case-sensitive field names: Af, Bf, ... (they can equal the names of exported Go fields)
+		}
 		for i := 0; i < n; i++ {
 			tt.Elems = append(tt.Elems, vxDrawType(t, depth-1, false))
-			tt.Names = append(tt.Names, string(rune('a'+i))+"f")
+			tt.Names = append(tt.Names, string(rune(int(first)+i))+"f")
 		}
 		return tt
 	}
